@@ -181,6 +181,9 @@ class ArrayUnionMatcher(CombinationMatcher):
         self._partsize = partsize
 
         self._a = array("d", (0 for _ in xrange(self._partsize)))
+        # Which slots of the part hold a matching document (a score may
+        # legitimately be zero or negative, so it cannot say that)
+        self._seen = array("B", (0 for _ in xrange(self._partsize)))
         self._docnum = self._min_id()
         self._read_part()
 
@@ -202,15 +205,18 @@ class ArrayUnionMatcher(CombinationMatcher):
         limit = min(self._docnum + self._partsize, self._doccount)
         offset = self._docnum
         a = self._a
+        seen = self._seen
 
         # Clear the array
         for i in xrange(self._partsize):
             a[i] = 0
+            seen[i] = 0
 
         # Add the scores from the submatchers into the array
         for m in self._submatchers:
             while m.is_active() and m.id() < limit:
                 i = m.id() - offset
+                seen[i] = 1
                 if scored:
                     a[i] += m.score() * boost
                 else:
@@ -221,13 +227,13 @@ class ArrayUnionMatcher(CombinationMatcher):
         self._limit = limit
 
     def _find_next(self):
-        a = self._a
+        seen = self._seen
         docnum = self._docnum
         offset = self._offset
         limit = self._limit
 
         while docnum < limit:
-            if a[docnum - offset] > 0:
+            if seen[docnum - offset]:
                 break
             docnum += 1
 
@@ -298,9 +304,9 @@ class ArrayUnionMatcher(CombinationMatcher):
         offset = self._offset
         limit = self._limit
 
-        a = self._a
+        seen = self._seen
         while docnum < doccount:
-            if a[docnum - offset] > 0:
+            if seen[docnum - offset]:
                 yield docnum
 
             docnum += 1
